@@ -305,11 +305,40 @@ def r_wsflag(P, chk):
                 if t is not None and any(a["k"] in ("WhileStmt", "ForStmt") for a in f.ancestors(t)):
                     sw, start, dkey = t, b.id, key(t["c"][0])
                     break
-        if sw is None:
-            continue
-        n_funcs += 1
         pos = f.cfg.positions()
-        inside = {pos[x["i"]][0] for x in walk(sw["c"][1]) if x.get("i") in pos}
+        if sw is None:
+            # the dispatch written as an if-chain over the current character: `current = *str; if (current == '\\') .. else if ..`
+            loop = None
+            for x in f.walk():
+                if x["k"] == "IfStmt" and any(y["k"] == "DeclRefExpr" and y["n"] == flag for y in walk(x["c"][0])):
+                    loop = next((a for a in f.ancestors(x) if a["k"] in ("WhileStmt", "ForStmt")), None)
+                    if loop is not None:
+                        break
+            if loop is None:
+                continue
+            body = loop["c"][1] if loop["k"] == "WhileStmt" else loop["c"][3]
+            counts = {}
+            firsts = {}
+            for x in walk(body):
+                if x["k"] == "BinaryOperator" and x["op"] == "==" and const_value(x["c"][1]) is not None and x.get("i") in pos:
+                    k2 = key(x["c"][0])
+                    t2 = ((strip(x["c"][0]) or {}).get("t") or "").replace("const ", "").strip()
+                    if t2 in ("char", "unsigned char", "int") and "->" not in k2:
+                        counts[k2] = counts.get(k2, 0) + 1
+                        firsts.setdefault(k2, x)
+            if not counts or max(counts.values()) < 3:
+                continue
+            dkey = max(counts, key=lambda k2: counts[k2])
+            start = pos[firsts[dkey]["i"]][0]
+            n_funcs += 1
+            inside = {pos[x["i"]][0] for x in walk(body) if x.get("i") in pos}
+            head = loop["c"][0] if loop["k"] == "WhileStmt" else loop["c"][1]
+            if head is not None and head.get("i") in pos:
+                inside.discard(pos[head["i"]][0])
+            sw = body
+        else:
+            n_funcs += 1
+            inside = {pos[x["i"]][0] for x in walk(sw["c"][1]) if x.get("i") in pos}
         reported = set()
         for v in range(1, 256):
             sv = v if v < 128 else v - 256
@@ -318,8 +347,9 @@ def r_wsflag(P, chk):
             if not arm:
                 continue
             armset = set(arm)
-            # entry blocks of the arm: successors of the switch block that are in the arm
-            entries = [s for s in f.cfg.blocks[start].rsucc if s in armset]
+            # entry blocks of the arm: successors of the switch block that are in the arm (if-chain form: the head itself)
+            entries = [s for s in f.cfg.blocks[start].rsucc if s in armset] if f.cfg.blocks[start].tk == "SwitchStmt" else \
+                ([start] if start in armset else [])
             # enumerate acyclic paths
             stack = [(e, (e,)) for e in entries]
             while stack:
